@@ -687,6 +687,8 @@ func allShapes() []Shape {
 	out := append(append(jsonSchemaShapes(), openAPIShapes()...), cueShapes()...)
 	out = append(out, structDefaultShapes()...)
 	out = append(out, crossPackageShapes()...)
+	out = append(out, refGraphShapes()...)
+	out = append(out, enumUnionShapes()...)
 	seen := map[string]bool{}
 	for _, s := range out {
 		k := s.Format + "/" + s.Name
